@@ -1556,17 +1556,39 @@ def _run_pideeponet(spec, ctx):
 
 
 # ====================================================================== data kinds
-def _norm_of(per_batch, norm, root, full):
-    """per_batch: list of float64 tensors |model-target| (or scalars a_b for HPM)."""
+def _norm_of(per_batch, norm, full):
+    """per_batch: list of float64 tensors |model-target| (or scalars a_b for HPM); the value
+    BEFORE the root is taken."""
     if full:
         if norm == "inf":
-            val = torch.stack([a.max() for a in per_batch]).max().clamp(min=0.0)
-        else:
-            val = torch.stack([(a ** norm).mean() for a in per_batch]).sum() / len(per_batch)
-    else:
-        a = per_batch[-1]
-        val = a.max() if norm == "inf" else (a ** norm).mean()
-    return val ** (1.0 / root) if root != 1.0 else val
+            return torch.stack([a.max() for a in per_batch]).max().clamp(min=0.0)
+        return torch.stack([(a ** norm).mean() for a in per_batch]).sum() / len(per_batch)
+    a = per_batch[-1]
+    return a.max() if norm == "inf" else (a ** norm).mean()
+
+
+def _norm_check(report, kind, loss, per_batch, mags, norm, root, full):
+    """forward() against the stated norm.  Compared before the root (loss**root against the
+    mean / max), with the float32 error budget tied to the magnitude of model output and target
+    (mags), not to their possibly tiny difference."""
+    what = f"(norm {norm}, root {root}, {'full data set' if full else 'one batch'}) "
+    if not isinstance(loss, torch.Tensor) or loss.numel() != 1:
+        return _scalar_check(report, kind, loss, 0.0, 1.0, what)
+    exp, scale = _norm_of(per_batch, norm, full), _norm_of(mags, norm, full)
+    g = loss.detach().double().reshape(())
+    if root != 1.0:
+        g = g ** root
+    if not _scalar_check(_Quiet(), kind, g, exp, scale):
+        e = float(exp) ** (1.0 / root) if root != 1.0 else float(exp)
+        report("loss-value", kind, f"forward()={float(loss.detach().double().reshape(())):.9g}, stated norm of "
+                                   f"model-minus-target on the recorded batches {what}= {e:.9g}")
+        return False
+    return True
+
+
+class _Quiet:
+    def __call__(self, *a):
+        pass
 
 
 def _random_data(gen, n, var_list):
@@ -1634,7 +1656,7 @@ def _run_data(spec, ctx):
         if spy and len(spy.calls) - calls != len(new):
             report("residual-calls", kind, f"{spy.fn.__name__} called {len(spy.calls) - calls} times for {len(new)} batches")
             break
-        per_batch = []
+        per_batch, mags = [], []
         for j, (xb, yb) in enumerate(new):
             cols, y = _cols(xb), yb[0].double()
             ci = calls + j
@@ -1648,7 +1670,9 @@ def _run_data(spec, ctx):
                 _check_args(report, spy, ci, expected, kind)
                 _check_derivs(report, spy, ci, lambda o, c, cols=cols: net.jac(cols, o, c), kind)
                 R = spy.rets[ci].detach().double()
-                per_batch.append(_red64(red, _err64(err, R)).reshape(()))
+                a_b = _red64(red, _err64(err, R)).reshape(())
+                per_batch.append(a_b)
+                mags.append(a_b.abs())
             else:
                 mo = net.outputs(cols)
                 for a, v in mo.items():
@@ -1661,10 +1685,9 @@ def _run_data(spec, ctx):
                 if out.shape != y.shape:
                     raise AssertionError(f"harness: output {tuple(out.shape)} vs target {tuple(y.shape)}")
                 per_batch.append((out - y).abs())
+                mags.append(out.abs() + y.abs())
         else:
-            exp = _norm_of(per_batch, norm, root, full)
-            _scalar_check(report, kind, loss, exp, exp,
-                          f"(norm {norm}, root {root}, {'full data set' if full else 'one batch'}) ")
+            _norm_check(report, kind, loss, per_batch, mags, norm, root, full)
             continue
         break
     report.flush()
@@ -1722,7 +1745,7 @@ def _run_deeponet_data(spec, ctx):
         if spy and len(spy.calls) - calls != len(new):
             report("residual-calls", kind, f"constrain_fn called {len(spy.calls) - calls} times for {len(new)} batches")
             break
-        per_batch = []
+        per_batch, mags = [], []
         for j, (bb, tb, ob) in enumerate(new):
             cols, fb, y = _cols(tb), bb[0].double(), ob[0].double()
             mo = net.outputs(cols, fb, shared=tb[0].dim() == 2)
@@ -1737,9 +1760,8 @@ def _run_deeponet_data(spec, ctx):
             if out.shape != y.shape:
                 raise AssertionError(f"harness: output {tuple(out.shape)} vs target {tuple(y.shape)}")
             per_batch.append((out - y).abs())
-        exp = _norm_of(per_batch, norm, root, full)
-        _scalar_check(report, kind, loss, exp, exp,
-                      f"(norm {norm}, root {root}, {'full data set' if full else 'one batch'}) ")
+            mags.append(out.abs() + y.abs())
+        _norm_check(report, kind, loss, per_batch, mags, norm, root, full)
     report.flush()
     cl = _classes(spec, net, False, [f"norm:{norm}", f"root:{root}", "full" if full else "per-batch",
                                      "trunk:unique" if unique else "trunk:shared"])
